@@ -52,6 +52,31 @@ def parse_errs(v):
     return out
 
 
+def dependent_bound_classes(node, ser):
+    """class ids that have a type parameter whose bound is a parameterized type mentioning another type parameter"""
+    out = set()
+
+    def mentions_var(t):
+        if t is None or t == ("none",):
+            return False
+        if t[0] == "V":
+            return True
+        if t[0] == "A":
+            return any(mentions_var(a) for a in t[2])
+        if t[0] == "W":
+            return mentions_var(t[2])
+        return False
+    inv = {v: k for k, v in ser.names.items()}
+    for d in node[5]:
+        if d[0] == 1:
+            for t in d[4]:
+                if t and t != ("none",) and t[0] == "V" and t[3] is not None and t[3][0] == "A" and mentions_var(t[3]):
+                    nm = inv.get(d[1])
+                    if nm in ser.classes:
+                        out.add(ser.classes[nm])
+    return out
+
+
 def gen_plan(tier, seed, pid):
     nper = 6 if tier == "quick" else 150          # per language x configuration corner
     plan = []
@@ -195,10 +220,16 @@ def run(pid, codes, tier, seed, what):
             path, code, detail = mine[0]
             nd = W.node_at(it["node"], path)
             nm = [k for k, v in it["ser"].names.items() if nd and v == nd[1]]
-            rep.violation(codes[code], "%s (switch combination %d, seed %d): %s at node path %s (%s%s): %s" % (
+            kind = codes[code]
+            dep = dependent_bound_classes(it["node"], it["ser"])
+            mm = re.findall(r"TApp (\d+) ", detail)
+            if code in (1, 2, 3, 5, 6, 7) and len(mm) >= 2 and re.match(r"Some \(TApp (\d+) ", detail) and \
+                    len({m_ for m_ in re.findall(r"Some \(TApp (\d+) ", detail)}) == 1 and int(mm[0]) in dep:
+                kind = "dependent-generic-bound"
+            rep.violation(kind, "%s (switch combination %d, seed %d): %s at node path %s (%s%s): %s" % (
                 it["lang"], it["combo"], it["seed"], codes[code], path,
                 {v: k for k, v in ir2coq.K.items()}.get(nd[0]) if nd else "?", " " + nm[0] if nm else "", detail[:300]),
-                dict(lang=it["lang"], combo=it["combo"], seed=it["seed"], program_bin=binp,
+                dict(lang=it["lang"], combo=it["combo"], seed=it["seed"], program_bin=binp, shape=kind,
                      errors=[dict(path=p_, code=c_, what=codes[c_], types=d_[:400]) for p_, c_, d_ in mine[:10]]))
     if pid == "C05":
         # the mechanism behind "never a reserved word": after the per-program reset the identifier pool
